@@ -477,7 +477,18 @@ func (c *Ctx) decodedOrigin(v ssa.Value, fwd map[*ssa.Function]map[int]bool, cac
 			found = name
 		}
 	}
+	c.lastCarrier = ""
 	sl.Visit(v, func(x ssa.Value) bool {
+		// the first struct field the value passed through on its way to the sink (nearest to the sink): names the
+		// decoded quantity independent of the function the sink sits in
+		if c.lastCarrier == "" {
+			switch y := x.(type) {
+			case *ssa.FieldAddr:
+				c.lastCarrier = carrierName(y.X.Type(), y.Field)
+			case *ssa.Field:
+				c.lastCarrier = carrierName(y.X.Type(), y.Field)
+			}
+		}
 		switch y := x.(type) {
 		case *ssa.Call:
 			if bi, ok := y.Call.Value.(*ssa.Builtin); ok && (bi.Name() == "len" || bi.Name() == "cap") {
@@ -515,6 +526,26 @@ func (c *Ctx) decodedOrigin(v ssa.Value, fwd map[*ssa.Function]map[int]bool, cac
 		return true
 	}, nil)
 	return found, bits, found != ""
+}
+
+// carrierName renders Type.Field for a field of a named struct type declared in the repository ("" otherwise).
+func carrierName(t types.Type, idx int) string {
+	for {
+		if p, ok := t.(*types.Pointer); ok {
+			t = p.Elem()
+			continue
+		}
+		break
+	}
+	n, ok := t.(*types.Named)
+	if !ok || n.Obj().Pkg() == nil || !strings.HasPrefix(n.Obj().Pkg().Path(), load.RootModule) {
+		return ""
+	}
+	st, ok := n.Underlying().(*types.Struct)
+	if !ok || idx >= st.NumFields() {
+		return ""
+	}
+	return n.Obj().Name() + "." + st.Field(idx).Name()
 }
 
 func basicBitsOf(t types.Type) int {
@@ -629,6 +660,7 @@ func (c *Ctx) allocRule(rule string, fns []*ssa.Function, V map[*ssa.Function]bo
 					}
 					n++
 					origin, dbits, decoded := c.decodedOrigin(s.size, fwd, cache)
+					carrier := c.lastCarrier
 					bits := basicBitsOf(stripConv(s.size).Type())
 					if dbits > 0 && dbits < bits {
 						bits = dbits
@@ -646,7 +678,12 @@ func (c *Ctx) allocRule(rule string, fns []*ssa.Function, V map[*ssa.Function]bo
 						c.S.OK(rule, construct, c.pos(s.instr.Pos()), "decoded size is compared with a bound before allocating", true)
 						continue
 					}
-					c.S.Bad(rule, construct, c.pos(s.instr.Pos()), fmt.Sprintf("%s allocates a size taken from the input (%s, %d bits) with no preceding bound: a few input bytes can request gigabytes", s.kind, origin, bits))
+					if carrier != "" {
+						// a finding is identified by what is unbounded (sink kind + decoded field), not by the function
+						// the allocation currently sits in
+						construct = s.kind + " sized by " + carrier
+					}
+					c.S.Bad(rule, construct, c.pos(s.instr.Pos()), fmt.Sprintf("%s in %s allocates a size taken from the input (%s, %d bits) with no preceding bound: a few input bytes can request gigabytes", s.kind, load.FuncName(f), origin, bits))
 				}
 			}
 		}
